@@ -292,6 +292,14 @@ Definition http_pick (g : grp) : grp * cres :=
       end
   end.
 
+(* n consecutive requests on one group *)
+Fixpoint picks (g : grp) (n : nat) : list cres :=
+  match n with
+  | O => []
+  | S n' => let (g', o) := http_pick g in o :: picks g' n'
+  end.
+Definition is_to (x : Z) (o : cres) : bool := match o with CTo y => y =? x | _ => false end.
+
 (* ---- threads and schedules ---- *)
 Inductive req :=
 | QJoin (j : jreq)
